@@ -466,3 +466,8 @@ pub(crate) enum ScopeVarLvaluePath {
         mod_name: String,
     },
 }
+
+// verification hooks (glass_easel_verif): compiled only under the cfg guard
+#[cfg(any(kani, glass_easel_verif))]
+#[path = "/verif/hooks/tc_proc_gen.rs"]
+mod verif;
